@@ -18,6 +18,7 @@ package id
 
 import (
 	"context"
+	"sync"
 
 	json "github.com/bytedance/sonic"
 	"github.com/muyo/sno"
@@ -35,6 +36,10 @@ func GetSno() *Sno {
 type SnoGenerator struct {
 	*sno.Generator
 	tracer tracing.ITracer
+	// mu serialises draws: when the clock tick advances, sno publishes the new tick and only
+	// then resets its sequence; a concurrent draw in between has its increment overwritten
+	// and the same id is issued twice.
+	mu sync.Mutex
 }
 
 func (g *Sno) NewIdGenerator(ctx context.Context, tracer tracing.ITracer) (result IGenerator, err error) {
@@ -72,6 +77,8 @@ func (g *Sno) RestoreIdGenerator(ctx context.Context, bytes []byte, tracer traci
 }
 
 func (g *SnoGenerator) Snapshot() (result []byte, err error) {
+	g.mu.Lock()
+	defer g.mu.Unlock()
 	result, err = json.Marshal(g.Generator.Snapshot())
 	return
 }
@@ -81,6 +88,8 @@ type SnoId struct {
 }
 
 func (g *SnoGenerator) New() Id {
+	g.mu.Lock()
+	defer g.mu.Unlock()
 	return &SnoId{ID: g.Generator.New(0)}
 }
 
